@@ -1,4 +1,4 @@
-"""C15 - undo history rewinds and replays recorded changes exactly.
+"""C15 - undo history rewinds and replays recorded changes exactly (also end to end through parameter ports).
 UndoHistory.tla (Record / Seek / Tick, written from the statement) is model-checked by TLC
 for a small bound (Book, UndoAllRestores, RedoAllRestores) together with three specification
 mutants; behaviours simulated with Max = 20 are executed on the real rtosc::UndoHistory
@@ -13,7 +13,7 @@ def judge(ctx, log, label):
     recs = ctx.read_ndjson(log)
     for i, r in enumerate(recs, 1):
         ctx.evaluations += len(r["ev"])
-        nrec = sum(1 for e in r["ev"] if e["op"] == "rec")
+        nrec = sum(1 for e in r["ev"] if e["op"] in ("rec", "set"))
         nseek = sum(1 for e in r["ev"] if e["op"] == "seek" and e["out"])
         if nrec >= 3 and nseek >= 1:
             ctx.nontrivial.add((label, i))
@@ -32,8 +32,9 @@ def strip(ev):
     out = []
     for e in ev:
         d = {k: v for k, v in e.items() if k not in ("pos", "entries", "out")}
-        if d["op"] == "rec":
+        if d["op"] in ("rec", "set"):
             d["a"] = d["a"].lstrip("/")
+        d.pop("params", None)
         out.append(d)
     return out
 
@@ -41,13 +42,15 @@ def strip(ev):
 def run(ctx):
     ctx.rule = ("(a) exhaustive TLC search of UndoHistory.tla (2 addresses, 3 values, Max=3, window 2, clock<=5) + 3 spec mutants; (b) TLC-simulated "
                 "behaviours with Max=20, 3 addresses, types i/f/c, clock steps 1/2/3 executed on the real object; (c) seeded random executions of 0..60 calls "
-                "with arbitrary events; evaluations = calls validated; non-trivial = execution with >= 3 recorded events and a seek that emitted messages")
+                "with arbitrary events; (d) the behaviours of (b) end to end: events emitted by real rParamI/rParamF/rParam ports, undo messages dispatched back into them, "
+                "parameter values compared with the model's store after every call; evaluations = calls validated; non-trivial = execution with >= 3 recorded events and a seek that emitted messages")
     ctx.assumptions = ["time() is interposed: the library sees the model clock", "values are small integers (floats integral)"]
     if ctx.replay:
         case = json.load(open(ctx.replay))["case"]
         p = ctx.path("ops.ndjson")
         open(p, "w").write(json.dumps(case["ops"]) + "\n")
-        ctx.driver("undo_driver", "asan", ["replay", p, ctx.path("log.ndjson")])
+        e2e = any(o["op"] == "set" for o in case["ops"])
+        ctx.driver("undo_driver", "asan", ["app" if e2e else "replay", p, ctx.path("log.ndjson")])
         judge(ctx, ctx.path("log.ndjson"), "replay")
         return
     thorough = ctx.tier == "thorough"
@@ -74,6 +77,12 @@ def run(ctx):
     recs = judge(ctx, ctx.path("logA.ndjson"), "simulated")
     ctx.notes["simulated_behaviours"] = len(recs)
     ctx.notes["executions_reaching_the_20_entry_cap"] = sum(1 for r in recs if any(len(e["entries"]) >= 20 for e in r["ev"]))
+    # (d) end to end: the same behaviours, but every recorded event comes from a parameter port built with the real macros and every undo / redo
+    #     message is dispatched back into those ports; the parameters themselves are compared with the model's store after every call
+    ctx.driver("undo_driver", "asan", ["app", ctx.path("ops.ndjson"), ctx.path("logC.ndjson")])
+    recs3 = judge(ctx, ctx.path("logC.ndjson"), "end-to-end")
+    ctx.notes["end_to_end_executions"] = len(recs3)
+    ctx.notes["end_to_end_sets_without_change"] = sum(1 for r in recs3 for e in r["ev"] if e["op"] == "set" and not e["got_event"])
     ctx.driver("undo_driver", "asan", ["random", ctx.seed, 20000 if thorough else 2000, ctx.path("logB.ndjson")])
     recs2 = judge(ctx, ctx.path("logB.ndjson"), "random")
     ctx.notes["random_executions"] = len(recs2)
